@@ -14,6 +14,55 @@ Definition run_body (br : M unit) : M bool :=
   catch (br ;;; ret true)
         (fun fl => match fl with FBreak _ => Some (ret false) | FContinue _ => Some (ret true) | _ => None end).
 
+(* body of a call: restores the call depth, turns a stray BREAK/CONTINUE into an error raised in the
+   callee's context cc, and (functions only) absorbs the RETURN signal *)
+Definition call_body (d : Z) (cc : N) (absorb_return : bool) (m : M unit) : M unit :=
+  fun s => match m s with
+           | (Ok _, s') => (Ok Datatypes.tt, set_depth d s')
+           | (Fail FReturn, s') => if absorb_return then (Ok Datatypes.tt, set_depth d s') else (Fail FReturn, set_depth d s')
+           | (Fail (FBreak bt), s') => rt_error bt cc (set_depth d s')
+           | (Fail (FContinue ct), s') => rt_error ct cc (set_depth d s')
+           | (Fail fl, s') => (Fail fl, set_depth d s')
+           end.
+
+(* --pedantic: the two run-time sites (assignment / INPUT to an undeclared name) *)
+Definition ped_guard (pedantic : bool) (t : token) : M unit :=
+  if pedantic then pedantic_error t else ret Datatypes.tt.
+
+(* bounds of an array declaration, evaluated pairwise by ev *)
+Fixpoint eval_bounds (ev : node -> M result) (c : N) (bs : list node) (total : Z) : M (list dim) :=
+  match bs with
+  | lo :: hi :: rest =>
+    lr <- ev lo ;;
+    if negb (dk_eqb (dk (r_type lr)) KInt) then rt_error (node_token lo) c else
+    hr <- ev hi ;;
+    if negb (dk_eqb (dk (r_type hr)) KInt) then rt_error (node_token hi) c else
+    l <- as_int lr ;; h <- as_int hr ;;
+    if h <? l then rt_error (node_token hi) c else
+    let n := (h - l + 1) mod two64 in
+    if (n =? 0) || (max_elements / total <? n) then rt_error (node_token hi) c else
+    ds <- eval_bounds ev c rest (total * n) ;; ret ((l, h) :: ds)
+  | _ => ret []
+  end.
+
+(* indices of an element access, each checked against its dimension before the next is evaluated *)
+Fixpoint eval_indices (ev : node -> M result) (c : N) (es : list node) (ds : list dim) : M (list Z) :=
+  match es, ds with
+  | e :: er, d :: dr =>
+    ir <- ev e ;;
+    if negb (dk_eqb (dk (r_type ir)) KInt) then rt_error (node_token e) c else
+    i <- as_int ir ;;
+    if negb (valid_index d i) then rt_error (node_token e) c else
+    rest <- eval_indices ev c er dr ;; ret (i :: rest)
+  | _, _ => ret []
+  end.
+
+Fixpoint repeatM {A} (k : nat) (m : M A) : M (list A) :=
+  match k with O => ret [] | S k' => x <- m ;; rest <- repeatM k' m ;; ret (x :: rest) end.
+
+Definition if_comp (ev : node -> M result) (rb : list node -> M unit) (p : option node * list node) : option (M result) * M unit :=
+  (match fst p with Some e => Some (ev e) | None => None end, rb (snd p)).
+
 Section Control.
 Variable lim : limits.
 
